@@ -124,7 +124,7 @@ func (c *Ctx) Explore(opts ExploreOpts, run func(cfg vsched.Config) Exec) {
 					c.confirm(opts, do, prefix, x)
 				}
 			}
-			for i := len(prefix); i < len(s.Trace); i++ {
+			for i := max(len(prefix), s.MarkAt); i < len(s.Trace); i++ {
 				p := s.Trace[i]
 				if opts.Filter != nil && !opts.Filter(p) {
 					continue
